@@ -191,7 +191,7 @@ class NixSourceCode:
         target = Path(path) if path else self.source_path
         if not target:
             raise ValueError("No path provided; use save(path=...)")
-        target.write_text(self.rebuild(), encoding="utf-8")
+        target.write_bytes(self.rebuild().encode("utf-8"))
         return target
 
     def _resolve_target_set(self, *, _visited: set[int] | None = None):
